@@ -22,7 +22,8 @@ import (
 // init script or container would set it). A client opens, alternating between the Unix socket and
 // the TCP control port, more sessions than the limit allows and holds them: the node greets as
 // many as it has descriptors for, the rest wait in the listeners' queues while accept(2) fails
-// with "too many open files". Sessions that were greeted must still answer `status`. Then the
+// with "too many open files" (the surplus is a matter of counting: more connections are open than
+// the process may hold descriptors). Sessions that were greeted must still answer `status`. Then the
 // client closes everything. Afterwards a FRESH session on EACH listener kind must be greeted and
 // get answers to `status` and a self-ping within a generous bound - the client's sessions were
 // input like any other, and "all other control sessions continue to get timely answers afterwards".
@@ -134,7 +135,10 @@ func c08FloodOnce(run *ev.Run, base string, round, limit int) {
 	var err error
 	for try := 0; try < 4; try++ {
 		d = ctl.NewDaemon(ctl.Cfg{ID: id, Dir: dir, TCPCtl: true, LogLevel: "error"})
-		d.Wrap = []string{"/bin/sh", "-c", fmt.Sprintf(`ulimit -n %d || exit 97; exec "$@"`, limit), "sh"}
+		// the node's log (stdout) is discarded: the unchanged accept loop reports every failed accept
+		// and retries at once, megabytes per second while the shortage lasts; panics and fatal
+		// errors go to stderr and stay in the output file
+		d.Wrap = []string{"/bin/sh", "-c", fmt.Sprintf(`ulimit -n %d || exit 97; exec "$@" >/dev/null`, limit), "sh"}
 		if err = d.Start(); err == nil {
 			// the TCP listener greets as well
 			var c *ctl.Client
@@ -208,7 +212,7 @@ func c08FloodOnce(run *ev.Run, base string, round, limit int) {
 	}
 	// wait until the number of greeted sessions has stopped growing (bounded)
 	last, stable := int64(-1), 0
-	for t0 := time.Now(); time.Since(t0) < 15*time.Second && stable < 16; time.Sleep(50 * time.Millisecond) {
+	for t0 := time.Now(); time.Since(t0) < 10*time.Second && stable < 10; time.Sleep(50 * time.Millisecond) {
 		if g := greeted[0].Load() + greeted[1].Load(); g == last {
 			stable++
 		} else {
@@ -239,26 +243,10 @@ func c08FloodOnce(run *ev.Run, base string, round, limit int) {
 		return
 	}
 	// more connections are open than the process may hold descriptors, so the surplus cannot have
-	// been accepted; the daemon's own report of the failing accept is recorded as well
-	emfile := map[string]int{}
-	if b, err := os.ReadFile(d.OutFile()); err == nil {
-		for _, l := range strings.Split(string(b), "\n") {
-			if strings.Contains(l, "too many open files") {
-				for _, k := range []string{"unix", "tcp"} {
-					if strings.Contains(l, "accept "+k) {
-						emfile[k]++
-					}
-				}
-			}
-		}
-	}
-	wit["daemon_reported_accept_failures"] = emfile
+	// been accepted: those sessions wait, ungreeted, while accept fails in the node
 	effective := map[string]bool{}
 	for _, k := range []string{"unix", "tcp"} {
 		effective[k] = pending[k] > 0 && len(conns) > limit
-		if emfile[k] > 0 {
-			run.Count("flood_daemon_reported_emfile_"+k, 1)
-		}
 	}
 	// ---- sessions that were greeted keep answering while the node is out of descriptors
 	for _, fc := range held {
